@@ -134,6 +134,7 @@ type GenCfg struct {
 	Docs         bool // allow doc strings
 	MetaShare    bool // several fields typed by one fixed-string MetaData entry (and an alias), one of them padded
 	AnyOrder     bool // MetaData blocks may follow the packets that use them
+	MoreEmpty bool // a third of the non-root packets have no fields (heartbeat-like payloads)
 	// PostProgram edits the drawn program before it is returned (property-specific shapes)
 	PostProgram func(p *Program) `json:"-"`
 }
@@ -358,6 +359,21 @@ func GenProgram(t *rapid.T, cfg GenCfg) *Program {
 		}
 		g.fillPacket(p.Packets[i], fmt.Sprintf("p%d", i), lower)
 	}
+	// the generators' self-tests sample the FIRST pair of a table: let it be the odd one sometimes
+	// (an empty payload packet)
+	for _, k := range p.Packets {
+		for _, f := range k.Fields {
+			if f.Kind != KMatch || len(f.Pairs) < 2 {
+				continue
+			}
+			for i := 1; i < len(f.Pairs); i++ {
+				if tp := p.PacketByName(f.Pairs[i].Target); tp != nil && len(tp.Fields) == 0 && rapid.IntRange(0, 2).Draw(t, "empty_first_"+f.Name) == 0 {
+					f.Pairs[0], f.Pairs[i] = f.Pairs[i], f.Pairs[0]
+					break
+				}
+			}
+		}
+	}
 	if cfg.PostProgram != nil {
 		cfg.PostProgram(p)
 	}
@@ -381,6 +397,9 @@ func (g *genState) fillPacket(k *Packet, label string, refs []string) {
 	nm := NewNamer() // field names are scoped to the packet but we keep them unique program-wide for simplicity
 	_ = nm
 	nf := rapid.IntRange(0, cfg.MaxFields).Draw(t, label+"_nf")
+	if !k.Root && cfg.MoreEmpty && rapid.IntRange(0, 2).Draw(t, label+"_empty") == 0 {
+		nf = 0
+	}
 	if k.Root && nf == 0 {
 		nf = 1
 	}
@@ -548,7 +567,7 @@ func (g *genState) anyField(label string, refs []string, depth int) *Field {
 		n := rapid.IntRange(1, 3).Draw(t, label+"_inf")
 		for i := 0; i < n; i++ {
 			var sf *Field
-			if depth+1 < 2 && !cfg.avoid("inline:nested") && rapid.IntRange(0, 4).Draw(t, fmt.Sprintf("%s_in%d_nest", label, i)) == 0 {
+			if depth+1 < 2 && !cfg.avoid("inline:nested") && rapid.IntRange(0, 2).Draw(t, fmt.Sprintf("%s_in%d_nest", label, i)) == 0 {
 				sf = g.anyField(fmt.Sprintf("%s_in%d", label, i), refsIf(!cfg.avoid("inline:obj"), refs), depth+1)
 			} else {
 				sf = g.valueField(fmt.Sprintf("%s_in%d", label, i), g.fname(fmt.Sprintf("%s_in%d", label, i)), true)
